@@ -19,6 +19,7 @@ import (
 	"runtime"
 	"runtime/debug"
 	"slices"
+	"strings"
 
 	"golang.org/x/tools/go/ssa"
 )
@@ -501,6 +502,7 @@ func callSSA(i *interpreter, caller *frame, callpos token.Pos, fn *ssa.Function,
 		name := fn.String()
 		if ext := externals[name]; ext != nil {
 			i.ex.intrinsics[name] = true
+			i.recordReceiverAccess(fr, name, args)
 			return ext(fr, args)
 		}
 		if o := fn.Origin(); o != nil {
@@ -599,6 +601,7 @@ func runFrame(fr *frame) {
 			fmt.Fprintf(os.Stderr, ".%s:\n", fr.block)
 		}
 
+		fr.i.ex.blocks[fr.block] = true
 		nonPhis := executePhis(fr)
 		for _, instr := range nonPhis {
 			if fr.i.mode&EnableTracing != 0 {
@@ -682,4 +685,29 @@ func doRecover(caller *frame) value {
 		}
 	}
 	return iface{}
+}
+
+// recordReceiverAccess tells the race monitor about the memory effect of an
+// intrinsic method on a stateful standard-library object (the intrinsic
+// bypasses the instrumented loads and stores of the real method body).
+func (i *interpreter) recordReceiverAccess(fr *frame, name string, args []value) {
+	if len(args) == 0 || !strings.HasPrefix(name, "(*") {
+		return
+	}
+	var stateful bool
+	for _, p := range []string{"(*bytes.Buffer).", "(*strings.Builder).", "(*crypto/sha256.digest)."} {
+		if strings.HasPrefix(name, p) {
+			stateful = true
+		}
+	}
+	if !stateful {
+		return
+	}
+	recv, ok := args[0].(*value)
+	if !ok || recv == nil {
+		return
+	}
+	m := name[strings.LastIndexByte(name, '.')+1:]
+	write := strings.HasPrefix(m, "Write") || m == "Reset" || m == "Grow" || m == "Truncate" || strings.HasPrefix(m, "Read") || m == "Next" || strings.HasPrefix(m, "Unread")
+	i.sched.access(fr, recv, write)
 }
